@@ -13,7 +13,7 @@ EXPLANATION = ('Censuses and path rules over lightning::ln::channel, ln::channel
 	'path that returns it; the held messages (revoke_and_ack / commitment update) are regenerated only on restore, reestablish (when no '
 	'update is in progress) or signer unblock; monitor_updating_restored is reachable only when all in-flight updates completed and no '
 	'blocked update is pending; Watch::update_channel is called from one routine after the update was queued in-flight; '
-	'ChainMonitor reports Completed only when no update is pending. Decides who-may-call / must-pass-through facts for all paths; the '
+	'ChainMonitor reports Completed only when no update is pending. Also: a channel_ready withheld while a monitor update is in flight is recorded as pending on every exit that follows the state transition; completion actions and channel resumption after a new update are released on the all-in-flight-updates-complete component only. Decides who-may-call / must-pass-through facts for all paths; the '
 	'exact release order of messages under all interleavings is not decided.')
 ASSUMPTIONS = ['Watch/Persist implementations outside the workspace honour the documented contract', 'calls through generic receivers are attributed to the trait item']
 
